@@ -157,7 +157,7 @@ def validate_traces(module, cases, workdir, cfg_consts='', invariants=(), shards
         s, g = parse_stats(out)
         states += s
         trans += g
-        bad = rc != 0 or 'Error:' in out
+        bad = rc != 0 or re.search(r'^Error:', out, re.M) is not None
         for local, gi in enumerate(parts[k], start=1):
             got = vs.get(local)
             if not got or len(got) != 1:
